@@ -6,7 +6,9 @@
 package cemi
 
 //@ func (info *Info) Unpack(data []byte) (n uint, err error)
-//@   props C01
+//@   props C01 C11
+//@   ensures [accept] {C11} err == nil <==> len(data) >= 1 && len(data) >= 1 + int(data[0])
+//@   ensures [value] {C11} err == nil ==> n == 1 + uint(data[0]) && len(*info) == int(data[0]) && forall k in 0..int(data[0]) :: (*info)[k] == data[1+k]
 //@   assigns *info
 
 //@ func (body *UnsupportedMessage) Unpack(data []byte) (n uint, err error)
@@ -22,14 +24,28 @@ package cemi
 //@   assigns *lbm, (*lbm)[0:]
 
 //@ func unpackTransportUnit(data []byte, unit *TransportUnit) (n uint, err error)
-//@   props C01
+//@   props C01 C11
 //@   decoder
 //@   requires unit != nil
+//@   let isCtl = len(data) >= 2 && data[1]&0x80 != 0
+//@   let isApp = len(data) >= 3 && data[1]&0x80 == 0 && data[0] >= 1 && len(data) >= int(data[0]) + 2
 //@   ensures [consumed] err == nil ==> n <= uint(len(data))
+//@   ensures [accept] {C11} err == nil <==> isCtl || isApp
+//@   ensures [control] {C11} isCtl ==> n == 2 && typeis(*unit, *ControlData) && (*unit).(*ControlData).Numbered == (data[1]&0x40 != 0) && (*unit).(*ControlData).SeqNumber == (data[1]>>2)&15 && (*unit).(*ControlData).Command == data[1]&3
+//@   ensures [app] {C11} isApp ==> n == uint(data[0]) + 2 && typeis(*unit, *AppData) && (*unit).(*AppData).Numbered == (data[1]&0x40 != 0) && (*unit).(*AppData).SeqNumber == (data[1]>>2)&15 && (*unit).(*AppData).Command == APCI((data[1]&3)<<2 | data[2]>>6) && len((*unit).(*AppData).Data) == int(data[0]) && (*unit).(*AppData).Data[0] == data[2]&63
+//@   ensures [app.data] {C11} isApp ==> forall k in 1..int(data[0]) :: (*unit).(*AppData).Data[k] == data[2+k]
 //@   assigns *unit
 
 //@ func (ldata *LData) Unpack(data []byte) (n uint, err error)
-//@   props C01
+//@   props C01 C11
+//@   exact
+//@   requires sep(ldata, data)
+//@   let il = int(data[0])
+//@   ensures [fields] {C11} err == nil ==> len(data) >= 9 + il && len(ldata.Info) == il && ldata.Control1 == ControlField1(data[1+il]) && ldata.Control2 == ControlField2(data[2+il]) && ldata.Source == IndividualAddr(data[3+il])<<8 | IndividualAddr(data[4+il]) && ldata.Destination == uint16(data[5+il])<<8 | uint16(data[6+il])
+//@   ensures [info] {C11} err == nil ==> forall k in 0..il :: ldata.Info[k] == data[1+k]
+//@   ensures [tpdu.control] {C11} err == nil && data[8+il]&0x80 != 0 ==> n == uint(9+il) && typeis(ldata.Data, *ControlData) && ldata.Data.(*ControlData).Numbered == (data[8+il]&0x40 != 0) && ldata.Data.(*ControlData).SeqNumber == (data[8+il]>>2)&15 && ldata.Data.(*ControlData).Command == data[8+il]&3
+//@   ensures [tpdu.app] {C11} err == nil && data[8+il]&0x80 == 0 ==> n == uint(9+il) + uint(data[7+il]) && typeis(ldata.Data, *AppData) && ldata.Data.(*AppData).Numbered == (data[8+il]&0x40 != 0) && ldata.Data.(*AppData).SeqNumber == (data[8+il]>>2)&15 && ldata.Data.(*AppData).Command == APCI((data[8+il]&3)<<2 | data[9+il]>>6) && len(ldata.Data.(*AppData).Data) == int(data[7+il]) && ldata.Data.(*AppData).Data[0] == data[9+il]&63
+//@   ensures [tpdu.app.data] {C11} err == nil && data[8+il]&0x80 == 0 ==> forall k in 1..int(data[7+il]) :: ldata.Data.(*AppData).Data[k] == data[9+il+k]
 //@   assigns *ldata
 
 //@ func Unpack(data []byte, message *Message) (n uint, err error)
@@ -46,10 +62,69 @@ package cemi
 //@   requires validTU(ldata.Data)
 
 //@ func (ldata *LData) Pack(buffer []byte)
+//@   props C11
+//@   exact
 //@   requires validTU(ldata.Data)
+//@   let il = infoLen(ldata.Info)
+//@   ensures [info] buffer[0] == byte(il) && forall k in 0..il :: buffer[1+k] == ldata.Info[k]
+//@   ensures [control] buffer[1+il] == byte(ldata.Control1) && buffer[2+il] == byte(ldata.Control2)
+//@   ensures [source] buffer[3+il] == byte(ldata.Source>>8) && buffer[4+il] == byte(ldata.Source)
+//@   ensures [destination] buffer[5+il] == byte(ldata.Destination>>8) && buffer[6+il] == byte(ldata.Destination)
+//@   ensures [tpdu.app] typeis(ldata.Data, *AppData) ==> buffer[7+il] == byte(appLen(ldata.Data.(*AppData))) && buffer[8+il] == tpci(ldata.Data.(*AppData).Numbered, ldata.Data.(*AppData).SeqNumber) | byte(ldata.Data.(*AppData).Command>>2)&3 && buffer[9+il] == byte(ldata.Data.(*AppData).Command&3)<<6 | (len(ldata.Data.(*AppData).Data) > 0 ? ldata.Data.(*AppData).Data[0]&63 : 0)
+//@   ensures [tpdu.app.data] typeis(ldata.Data, *AppData) ==> forall k in 1..appLen(ldata.Data.(*AppData)) :: k < len(ldata.Data.(*AppData).Data) ==> buffer[9+il+k] == ldata.Data.(*AppData).Data[k]
+//@   ensures [tpdu.control] typeis(ldata.Data, *ControlData) ==> buffer[7+il] == 0 && buffer[8+il] == 0x80 | tpci(ldata.Data.(*ControlData).Numbered, ldata.Data.(*ControlData).SeqNumber) | ldata.Data.(*ControlData).Command&3
 
 //@ func Size(message Message) (size uint)
 //@   inline
 
 //@ func Pack(buffer []byte, message Message)
 //@   inline
+
+// ---------- C11: bit layout of L_Data frames (written from the cEMI specification) ----------
+
+//@ func Control1Prio(prio Priority) (r ControlField1)
+//@   props C11
+//@   ensures [layout] r == ControlField1(prio&3)<<2
+//@   assigns nothing
+
+//@ func Control2Hops(hops uint8) (r ControlField2)
+//@   props C11
+//@   ensures [layout] r == ControlField2(min(hops, 7))<<4
+//@   ensures [accessor] r.Hops() == min(hops, 7)
+//@   assigns nothing
+
+//@ func (ctrl2 ControlField2) Hops() (h uint8)
+//@   props C11
+//@   ensures [layout] h == uint8(ctrl2>>4) & 7
+//@   assigns nothing
+
+//@ func (ctrl2 ControlField2) IsGroupAddr() (b bool)
+//@   props C11
+//@   ensures [layout] b == (ctrl2>>7 == 1)
+//@   assigns nothing
+
+//@ func (apci APCI) IsGroupCommand() (b bool)
+//@   props C11
+//@   ensures [layout] b == (apci < 3)
+//@   assigns nothing
+
+//@ spec infoLen(i Info) int = min(len(i), 255)
+//@ spec appLen(a *AppData) int = len(a.Data) > 255 ? 255 : (len(a.Data) < 1 ? 1 : len(a.Data))
+//@ spec tpci(numbered bool, seq uint8) byte = numbered ? 0x40 | (seq&15)<<2 : 0
+
+//@ func (info Info) Pack(buffer []byte)
+//@   props C11
+//@   ensures [length] buffer[0] == byte(infoLen(info))
+//@   ensures [bytes] forall k in 0..infoLen(info) :: buffer[1+k] == info[k]
+
+//@ func (app *AppData) Pack(buffer []byte)
+//@   props C11
+//@   ensures [length] buffer[0] == byte(appLen(app))
+//@   ensures [tpci] buffer[1] == tpci(app.Numbered, app.SeqNumber) | byte(app.Command>>2)&3
+//@   ensures [apci] buffer[2] == byte(app.Command&3)<<6 | (len(app.Data) > 0 ? app.Data[0]&63 : 0)
+//@   ensures [data] forall k in 1..appLen(app) :: k < len(app.Data) ==> buffer[2+k] == app.Data[k]
+
+//@ func (control *ControlData) Pack(buffer []byte)
+//@   props C11
+//@   ensures [length] buffer[0] == 0
+//@   ensures [tpci] buffer[1] == 0x80 | tpci(control.Numbered, control.SeqNumber) | control.Command&3
